@@ -36,8 +36,10 @@ Tpl == << [subs |-> <<GA>>], [subs |-> <<G3>>], [subs |-> <<G4>>],
           [subs |-> <<GC, GA, GD, GB>>],
           [subs |-> <<GA, GE>>], [subs |-> <<GE, G3, GA>>] >>
 MCFiles == {Tpl[i] : i \in 1..Len(Tpl)}
-MCFilesSmall == {Tpl[i] : i \in {2, 4, 5, 6, 10}}
+MCFilesSmall == {Tpl[i] : i \in {2, 5, 10}}
+MCTiny == {Tpl[2]}
 FracsFull == {0, 1, 50000000, 99999999}
 FracsHalf == {0, 50000000}
 EmitTpl == \A i \in 1..Len(Tpl) : PrintT(<<"TPL", i, Tpl[i].subs>>)
+ASSUME EmitTpl
 =============================================================================
